@@ -108,6 +108,10 @@ func NewSim(ch *Choices) *Sim {
 // Now is simulated time since the run began.
 func (s *Sim) Now() time.Duration { return time.Since(s.start) }
 
+// Rebase makes "now" the origin of simulated time (a world that lets some time pass before its
+// workload starts calls it once, before anything is scheduled).
+func (s *Sim) Rebase() { s.start = time.Now() }
+
 // Poke wakes the scheduler if it is waiting for time to pass.
 func (s *Sim) Poke() {
 	select {
